@@ -22,7 +22,45 @@ func init() {
 	})
 }
 
+// genC08SlowLosers: a hedge below a retry policy whose losing attempts notice their cancellation
+// late (after the outer retry policy has moved on to its delay), and a caller whose context ends
+// during that delay. What the caller must see is the cause of *its* cancellation.
+func genC08SlowLosers(r *Rnd, t Tier) *Case {
+	unit := ms
+	sc := &Scenario{Family: "c08"}
+	outer := PolicySpec{Kind: KRetry, MaxRetries: r.Range(1, 3), DelayKind: DelayFixed, Delay: time.Duration(r.Range(10, 25)) * unit, Handle: Cond{Results: []int{1}}}
+	h := PolicySpec{Kind: KHedge, MaxHedges: 1, Delay: time.Duration(r.Range(1, 4)) * unit, Cancel: Cond{Results: []int{1}}}
+	var inner PolicySpec
+	if r.Bool() {
+		inner = PolicySpec{Kind: KRetry, MaxRetries: 1, Handle: Cond{Errors: []int{EA}}}
+	} else {
+		inner = genFallback(r, unit)
+		inner.Handle = Cond{Errors: []int{EA}}
+	}
+	sc.Policies = []PolicySpec{outer, h, inner}
+	sc.Stacks = [][]int{{0, 1, 2}}
+	// first attempt: slow, and slow to react to its cancellation; the hedge: quick, with the result both the
+	// hedge (accept) and the outer retry (failure) look for
+	slow := Outcome{Dur: time.Duration(r.Range(20, 40)) * unit, Result: 2, Coop: CoopLate, IgnoreFor: time.Duration(r.Range(3, 9)) * unit}
+	quick := Outcome{Dur: time.Duration(r.Range(0, 2)) * unit, Result: 1}
+	sc.Scripts = []Script{{Outcomes: []Outcome{slow, quick, slow, quick, slow, quick, {Result: 3}}}}
+	src := pick(r, SrcCtxDeadline, SrcCtxDeadline, SrcCtxCancel)
+	op := Op{Kind: "exec", CancelSrc: src, Entry: pick(r, EnGetExec, EnGetExecAsync, EnRunExec)}
+	at := h.Delay + quick.Dur + time.Duration(r.Range(2, int(outer.Delay/unit)-1))*unit // inside the outer delay
+	if src == SrcCtxDeadline {
+		op.Ctx, op.CtxD = CtxDeadline, at
+	} else {
+		op.Ctx, op.CancelAt = CtxCancel, at
+	}
+	sc.Clients = []Client{{Ops: []Op{{Kind: "sleep", Dur: unit / 2}, op}}}
+	terminating(sc)
+	return &Case{Sc: sc}
+}
+
 func genC08(r *Rnd, t Tier) *Case {
+	if r.P(0.04) {
+		return genC08SlowLosers(r, t)
+	}
 	unit := ms
 	sc := &Scenario{Family: "c08"}
 	src := pick(r, SrcCtxCancel, SrcCtxCancel, SrcCtxDeadline, SrcTimeout, SrcResultCancel, SrcResultCancel)
@@ -526,7 +564,8 @@ func hedgeProducedBefore(sc *Scenario, v *ExecView, got *Event, seq int) bool {
 			continue
 		}
 		for _, ch := range n.Children {
-			if ch.Exit != nil && ch.Exit.Seq < seq && sameOutcome(got.Val, got.Err, ch.Exit.Val, ch.Exit.Err) {
+			// the attempt's own result: what a cancelled (losing) attempt returns is not a result of the execution
+			if ch.Exit != nil && ch.Exit.Seq < seq && !canceledAt(ch.Exit) && sameOutcome(got.Val, got.Err, ch.Exit.Val, ch.Exit.Err) {
 				return true
 			}
 		}
